@@ -26,6 +26,13 @@ class MethodSignature(LeafExpr):
             )
         elif len(methodName) == 0:
             raise TealInputError("invalid input empty string to Method")
+        elif any(c in methodName for c in '"\\\n\r'):
+            # the TEAL `method` pseudo-op takes the raw text between two double quotes on one line
+            raise TealInputError(
+                "method signature cannot contain quotes, backslashes or line breaks: {!r}".format(
+                    methodName
+                )
+            )
         self.methodName = methodName
 
     def __teal__(self, options: "CompileOptions"):
